@@ -41,7 +41,7 @@ N = dict(
     make_promise=r'^cocls::promise<int> cocls::make_promise<int, c18_cb>\(c18_cb&&\)$',
     make_promise_st=r'^cocls::promise<int> cocls::make_promise<int, c18_cb, c18_storage>\(c18_cb&&, c18_storage&\)$',
     discard=r'^void cocls::discard<c18_factory>\(c18_factory&&\)$',
-    d_ctor=r'^cocls::discard<c18_factory>\(c18_factory&&\)::Awt::Awt\(c18_factory&&, bool&\)$',
+    d_ctor=r'^cocls::discard<c18_factory>\(c18_factory&&\)::Awt::Awt\(c18_factory&&.*\)$',   # tolerant of a changed parameter list
     d_fin=r'^cocls::discard<c18_factory>\(c18_factory&&\)::Awt::fin\(cocls::awaiter\*, void\*\)$',
     d_dtor=r'^cocls::discard<c18_factory>\(c18_factory&&\)::Awt::~Awt\(\)$',
     cfa_ctor='^' + CFAR + r'::call_fn_future_awaiter\(c18_obj&\)$',
